@@ -79,6 +79,51 @@ static size_t hmac_dsize(void) { return g_hm_dsize; }
 static void hmac_append(char const *p, size_t n) { g_hm_appends++; }
 static void hmac_readout(char *out) { __CPROVER_assert(__CPROVER_w_ok(out, g_hm_dsize), "hmac::readout writes digest_size bytes"); if(g_hm_readouts < 2) g_hm_out[g_hm_readouts] = out; g_hm_readouts++; }
 '''
+
+PRE += r'''
+/* ---- session_cookies::load / save: the cookie, the base64 text and the cipher text are opaque ids handed between recorders; the decrypted plain text is a real buffer
+ *      (its first sizeof(time_t) bytes are the expiry) */
+struct sbuf { char *p; size_t n; };
+size_t g_cookie_id, g_sub_id2, g_cipher_id, g_data_id; bool g_cookie_empty; char g_cookie_c0; bool g_b64_ok, g_dec_ok2; struct sbuf g_plain; time_t g_now2;
+int g_clear_calls, g_b64_calls, g_decr_calls, g_substr_calls, g_badarg, g_tsub_calls; size_t g_b64_in, g_decr_in, g_tsub_from;
+static size_t get_cookie_rec(void) { return g_cookie_id; }
+static bool cookie_empty(size_t id) { if(id != g_cookie_id) g_badarg = 1; return g_cookie_empty; }
+static char cookie_at(size_t id, size_t at) { if(id != g_cookie_id || at != 0) g_badarg = 1; return g_cookie_c0; }
+static size_t cookie_substr(size_t id, size_t from) { if(id != g_cookie_id || from != 1) g_badarg = 1; if(g_substr_calls < 2) g_substr_calls++; return g_sub_id2; }
+static void clear_cookie_rec(void) { if(g_clear_calls < 2) g_clear_calls++; }
+static bool b64_decode_rec(size_t in, size_t *out) { if(g_b64_calls < 2) g_b64_calls++; g_b64_in = in; if(!g_b64_ok) return 0; *out = g_cipher_id; return 1; }
+static bool decrypt_rec(size_t in, struct sbuf *out) { if(g_decr_calls < 2) g_decr_calls++; g_decr_in = in; if(!g_dec_ok2) return 0; *out = g_plain; return 1; }
+static size_t tmp_substr_rec(struct sbuf const *t, size_t from) { if(t->p != g_plain.p || t->n != g_plain.n) g_badarg = 1; if(g_tsub_calls < 2) g_tsub_calls++; g_tsub_from = from; return g_data_id; }
+static time_t time0_rec(void) { return g_now2; }
+/* save side */
+struct rdata { int parts; size_t raw_n; time_t raw_val; size_t str_id; int raw_at, str_at; };
+size_t g_enc_out, g_b64e_out, g_cat_out; int g_enc_calls2, g_enc_parts, g_b64e_calls, g_cat_calls2, g_set_calls; size_t g_b64e_in, g_cat_in, g_set_arg; char g_cat_c;
+static void rd_append_raw(struct rdata *r, char const *p, size_t n) { r->raw_at = r->parts; if(r->parts < 3) r->parts++; r->raw_n = n; if(n == sizeof(time_t)) memcpy(&r->raw_val, p, sizeof(time_t)); }
+static void rd_append_str(struct rdata *r, size_t id) { r->str_at = r->parts; if(r->parts < 3) r->parts++; r->str_id = id; }
+struct rdata g_enc_seen;
+static size_t encrypt_rec(struct rdata const *r) { if(g_enc_calls2 < 2) g_enc_calls2++; g_enc_seen = *r; return g_enc_out; }
+static size_t b64_encode_rec(size_t in) { if(g_b64e_calls < 2) g_b64e_calls++; g_b64e_in = in; return g_b64e_out; }
+static size_t cat_lit_rec(char c, size_t id) { if(g_cat_calls2 < 2) g_cat_calls2++; g_cat_c = c; g_cat_in = id; return g_cat_out; }
+static void set_cookie_rec(size_t id) { if(g_set_calls < 2) g_set_calls++; g_set_arg = id; }
+'''
+
+SI = 'src/session_interface.cpp'
+PRE += r'''
+/* ---- session_interface::load: what happens with the plain text the storage back end (session_cookies for client-side sessions) hands over.  load_data() parses it and THROWS on malformed input. */
+#define K__t 1
+#define K__h 2
+#define K__s 3
+struct sintf { int loaded_; bool has_storage; int timeout_val_, timeout_val_def_, how_, how_def_; int saved_, on_server_; time_t timeout_in_; };
+bool g_sl_ok, g_ld_throws; size_t g_sl_ar; int g_sl_calls, g_ld_calls, g_sclear_calls, g_dclear_calls, g_dclear_after_ld, g_cassign_calls, g_cclear_calls; size_t g_ld_arg; int g_isset[4];
+static void data_clear_rec(void) { if(g_dclear_calls < 3) g_dclear_calls++; if(g_ld_calls) g_dclear_after_ld = 1; }
+static void copy_clear_rec(void) { if(g_cclear_calls < 3) g_cclear_calls++; }
+static bool storage_load_rec(size_t *ar, time_t *to) { if(g_sl_calls < 2) g_sl_calls++; if(!g_sl_ok) return 0; *ar = g_sl_ar; time_t t; *to = t; return 1; }
+static void load_data_rec(size_t ar) { if(g_ld_calls < 2) g_ld_calls++; g_ld_arg = ar; if(g_ld_throws) verif_thrown = 1; }
+static void storage_clear_rec(void) { if(g_sclear_calls < 2) g_sclear_calls++; }
+static void copy_assign_rec(void) { if(g_cassign_calls < 2) g_cassign_calls++; }
+static bool is_set_rec(int k) { return g_isset[k] != 0; }
+static int get_int_rec(int k) { int v; return v; }
+'''
 functions = [
     dict(cname='hmac_equal', file=H, locate=lit('bool hmac_cipher::equal(void const *a,void const *b,size_t n)'), sig='bool hmac_equal(void const *a, void const *b, size_t n)',
          loops={0: EQ_INV},
@@ -148,6 +193,57 @@ __CPROVER_ensures((!verif_thrown && k->n == g_cbc_key_size + g_digest_size) ==> 
 /* any other accepted key: both keys are derived from the WHOLE key with a keyed hash (two different read-outs), never cut out of it */
 __CPROVER_ensures((!verif_thrown && k->n != g_cbc_key_size + g_digest_size) ==> (k->n >= g_cbc_key_size && g_hm_readouts == 2 && g_hm_appends == 2 && g_ks_p[KEY_CBC] == g_hm_out[0] && g_ks_p[KEY_HMAC] == g_hm_out[1] && g_hm_out[0] != g_hm_out[1]))
 '''),
+    dict(cname='sc_load', file=C, locate=lit('bool session_cookies::load(session_interface &session,string &data,time_t &timeout_out)'),
+         sig='bool sc_load(size_t *data, time_t *timeout_out)', refs=['data', 'timeout_out'],
+         rewrites=[(r'string cdata=session\.get_session_cookie\(\);', 'size_t cdata = get_cookie_rec();', 1), (r'cdata\.empty\(\)', 'cookie_empty(cdata)', 0), (r'cdata\[(\w+)\]', r'cookie_at(cdata, \1)', 0),
+                   (r'session\.clear_session_cookie\(\)', 'clear_cookie_rec()', 0), (r'std::string cipher;', 'size_t cipher = 0;', 1), (r'b64url::decode\(cdata\.substr\((\w+)\),cipher\)', r'b64_decode_rec(cookie_substr(cdata, \1), &cipher)', 0),
+                   (r'string tmp;', 'struct sbuf tmp = {0, 0};', 1), (r'encryptor_->decrypt\(cipher,tmp\)', 'decrypt_rec(cipher, &tmp)', 0), (r'BOOSTER_WARNING\("cppcms"\)[^;]*;', '', 0),
+                   (r'tmp\.size\(\)', 'tmp.n', 0), (r'tmp\.data\(\)', 'tmp.p', 0), (r'\btime\(0\)', 'time0_rec()', 0), (r'data = tmp\.substr\(([^;]+)\);', r'data = tmp_substr_rec(&tmp, \1);', 0)],
+         contract=r'''
+__CPROVER_requires(__CPROVER_w_ok(data, sizeof(*data)) && __CPROVER_w_ok(timeout_out, sizeof(*timeout_out)) && g_plain.n <= BUF_CAP && __CPROVER_r_ok(g_plain.p, g_plain.n) &&
+                   g_clear_calls == 0 && g_b64_calls == 0 && g_decr_calls == 0 && g_substr_calls == 0 && g_badarg == 0 && g_tsub_calls == 0)
+__CPROVER_assigns(*data, *timeout_out, g_clear_calls, g_b64_calls, g_b64_in, g_decr_calls, g_decr_in, g_substr_calls, g_badarg, g_tsub_calls, g_tsub_from)
+/* C05: a session is loaded only from a cookie "C" ++ base64url(cipher) whose cipher text the encryptor authenticated; the expiry is the first sizeof(time_t) bytes of the plain text and is not in the past;
+   the data is the rest of the plain text; the cookie is left alone */
+__CPROVER_ensures(__CPROVER_return_value ==> (g_badarg == 0 && !g_cookie_empty && g_cookie_c0 == 'C' && g_substr_calls == 1 && g_b64_calls == 1 && g_b64_in == g_sub_id2 && g_b64_ok &&
+                  g_decr_calls == 1 && g_decr_in == g_cipher_id && g_dec_ok2 && g_plain.n >= sizeof(time_t) && g_tsub_calls == 1 && g_tsub_from == sizeof(time_t) && *data == g_data_id && g_clear_calls == 0))
+__CPROVER_ensures(__CPROVER_return_value ==> (*timeout_out >= g_now2 && *timeout_out == *(time_t const *)g_plain.p))
+/* every rejected cookie is cleared (an absent cookie needs no clearing) -- and a cookie that passes every test and expires in the future IS accepted */
+__CPROVER_ensures(!__CPROVER_return_value ==> (g_cookie_empty ? g_clear_calls == 0 : g_clear_calls == 1))
+__CPROVER_ensures((!g_cookie_empty && g_cookie_c0 == 'C' && g_b64_ok && g_dec_ok2 && g_plain.n >= sizeof(time_t) && *(time_t const *)g_plain.p > g_now2) ==> __CPROVER_return_value)
+'''),
+    dict(cname='sc_save', file=C, locate=r'void session_cookies::save\(session_interface &session,string const &data,time_t timeout,bool\s+,bool on_server\)',
+         sig='void sc_save(size_t data, time_t timeout, bool on_server)', throw_ret='',
+         rewrites=[(r'std::string real_data;', 'struct rdata real_data = {0, 0, 0, 0, 0, 0};', 1), (r'real_data\.reserve\([^;]*;', '', 0),
+                   (r'real_data\.append\(reinterpret_cast<char \*>\(([^)]+)\),([^;]+)\);', r'rd_append_raw(&real_data, (char *)(\1), \2);', 0), (r'real_data\+=(\w+);', r'rd_append_str(&real_data, \1);', 0),
+                   (r'std::string cipher = encryptor_->encrypt\((\w+)\);', r'size_t cipher = encrypt_rec(&\1);', 0), (r'string cdata="(\w)" \+ b64url::encode\((\w+)\);', r"size_t cdata = cat_lit_rec('\1', b64_encode_rec(\2));", 0),
+                   (r'session\.set_session_cookie\((\w+)\)', r'set_cookie_rec(\1)', 0)],
+         contract=r'''
+__CPROVER_requires(verif_thrown == 0 && g_enc_calls2 == 0 && g_b64e_calls == 0 && g_cat_calls2 == 0 && g_set_calls == 0)
+__CPROVER_assigns(verif_thrown, g_enc_calls2, g_enc_seen, g_b64e_calls, g_b64e_in, g_cat_calls2, g_cat_c, g_cat_in, g_set_calls, g_set_arg)
+/* C05: what is encrypted is exactly expiry (sizeof(time_t) raw bytes) ++ data -- the layout load() takes apart -- and the cookie is "C" ++ base64url(cipher); server-side storage is refused */
+__CPROVER_ensures(on_server ? (verif_thrown && g_set_calls == 0) : (!verif_thrown && g_enc_calls2 == 1 && g_enc_seen.parts == 2 && g_enc_seen.raw_at == 0 && g_enc_seen.raw_n == sizeof(time_t) && g_enc_seen.raw_val == timeout &&
+                  g_enc_seen.str_at == 1 && g_enc_seen.str_id == data && g_b64e_calls == 1 && g_b64e_in == g_enc_out && g_cat_calls2 == 1 && g_cat_c == 'C' && g_cat_in == g_b64e_out && g_set_calls == 1 && g_set_arg == g_cat_out))
+'''),
+    dict(cname='si_load', file=SI, locate=lit('bool session_interface::load()'), sig='bool si_load(struct sintf *self)', throw_ret='0',
+         members=['loaded_', 'timeout_val_', 'timeout_val_def_', 'how_', 'how_def_', 'saved_', 'on_server_', 'timeout_in_'],
+         rewrites=[(r'!storage_\.get\(\)', '!self->has_storage', 1), (r'data_\.clear\(\)', 'data_clear_rec()', 0), (r'data_copy_\.clear\(\)', 'copy_clear_rec()', 0), (r'std::string ar;', 'size_t ar = 0;', 1),
+                   (r'storage_->load\(\*this,ar,([\w>-]+)\)', r'storage_load_rec(&ar, &\1)', 1),
+                   # try { load_data } catch(cppcms_error) { ... }: the handler runs iff the call threw, and consumes the exception
+                   (r'try \{\s*load_data\(data_,ar\);\s*\}\s*catch\(cppcms_error const &\) \{', 'load_data_rec(ar); if(verif_thrown) { verif_thrown = 0;', 0),
+                   # a bare call: the exception leaves the function
+                   (r'load_data\(data_,ar\);', 'load_data_rec(ar); if(verif_thrown) return 0;', 0),
+                   (r'storage_->clear\(\*this\)', 'storage_clear_rec()', 0), (r'data_copy_=data_;', 'copy_assign_rec();', 0), (r'is_set\("(\w+)"\)', r'is_set_rec(K_\1)', 0), (r'get<int>\("(\w+)"\)', r'get_int_rec(K_\1)', 0)],
+         contract=r'''
+__CPROVER_requires(__CPROVER_rw_ok(self, sizeof(*self)) && verif_thrown == 0 && g_sl_calls == 0 && g_ld_calls == 0 && g_sclear_calls == 0 && g_dclear_calls == 0 && g_dclear_after_ld == 0 && g_cassign_calls == 0 && g_cclear_calls == 0)
+__CPROVER_assigns(verif_thrown, self->loaded_, self->timeout_val_, self->how_, self->saved_, self->on_server_, self->timeout_in_, g_sl_calls, g_ld_calls, g_ld_arg, g_sclear_calls, g_dclear_calls, g_dclear_after_ld, g_cassign_calls, g_cclear_calls)
+/* C05: session data that the back end authenticated but that does not parse (e.g. a MAC-valid cookie of another algorithm under the same key) is REJECTED: no exception leaves load(),
+   no value stays visible, and the back end is told to clear the cookie; well-formed data is loaded; a refused cookie loads nothing */
+__CPROVER_ensures(!verif_thrown)
+__CPROVER_ensures((__CPROVER_old(self->loaded_) == 0 && self->has_storage && g_sl_ok && g_ld_throws) ==> (!__CPROVER_return_value && g_ld_calls == 1 && g_ld_arg == g_sl_ar && g_sclear_calls == 1 && g_dclear_after_ld && g_cassign_calls == 0))
+__CPROVER_ensures((__CPROVER_old(self->loaded_) == 0 && self->has_storage && g_sl_ok && !g_ld_throws) ==> (__CPROVER_return_value && g_ld_calls == 1 && g_ld_arg == g_sl_ar && g_sclear_calls == 0 && g_cassign_calls == 1))
+__CPROVER_ensures((__CPROVER_old(self->loaded_) != 0 || !self->has_storage || !g_sl_ok) ==> (!__CPROVER_return_value && g_ld_calls == 0 && g_sclear_calls == 0 && g_cassign_calls == 0))
+'''),
 ]
 
 CTX_SETUP = r'''
@@ -156,18 +252,32 @@ CTX_SETUP = r'''
     g_mac_appended = 0; g_mac_read = 0; g_eq_called = 0; g_plain_set = 0; g_dec_called = 0; g_plain_from_dec = 0; g_eq_result = 0;
     WIT(0, n); WIT(1, c.digest_size); WIT(2, c.block_size);
 '''
+REPLAY5 = dict(replay='c05:cookies', replay_link=['-fno-access-control', '-L{BUILD}', '-lcppcms', '-L{BUILD}/booster', '-lbooster', '-lpthread'], replay_exhaustive='the real session_interface + session_cookies + hmac/aes encryptors + base64url through the cookie-adapter interface: 9 encryptor configurations (hmac md5/sha1/sha256/sha512, aes 128/192/256, split hmac+cbc keys) x payloads of 0..65000 bytes; the genuine cookie must load; every single-bit flip, truncation, extension, block swap, splice, arbitrary string, cross-key and cross-algorithm transplant (also under a SHARED HMAC key) and an expired cookie must be rejected, without an exception, with the cookie cleared (about 97000 cookies)')
 jobs = [
-    dict(name='hmac_equal', props=P, enforce='hmac_equal', harness=r'''
+    dict(name='hmac_equal', props=P, **REPLAY5, enforce='hmac_equal', harness=r'''
     size_t n, k; __CPROVER_assume(n <= BUF_CAP); g_k = k; char *a = malloc(n); char *b = malloc(n); __CPROVER_assume(a != NULL && b != NULL);
     hmac_equal(a, b, n); VERIF_REACH;'''),
-    dict(name='hmac_decrypt', props=P, enforce='hmac_decrypt', harness=CTX_SETUP + 'hmac_decrypt(&c); VERIF_REACH;',
+    dict(name='hmac_decrypt', props=P, **REPLAY5, enforce='hmac_decrypt', harness=CTX_SETUP + 'hmac_decrypt(&c); VERIF_REACH;',
          witness=dict(vals=['n', 'digest_size', 'block_size'])),
-    dict(name='aes_decrypt', props=P, enforce='aes_decrypt', harness=CTX_SETUP + 'aes_decrypt(&c); VERIF_REACH;',
+    dict(name='aes_decrypt', props=P, **REPLAY5, enforce='aes_decrypt', harness=CTX_SETUP + 'aes_decrypt(&c); VERIF_REACH;',
          witness=dict(vals=['n', 'digest_size', 'block_size'])),
-    dict(name='aes_factory_split', props=P, enforce='aes_factory_split', harness=r'''
+    dict(name='aes_factory_split', props=P, **REPLAY5, enforce='aes_factory_split', harness=r'''
     struct ckey k; size_t kn; __CPROVER_assume(kn <= 4096); char *kb = malloc(kn); __CPROVER_assume(kb != NULL); k.p = kb; k.n = kn;
     size_t ds, cs; int ok; g_digest_size = ds; g_cbc_key_size = cs; g_cbc_supported = ok != 0; g_ks_calls[0] = 0; g_ks_calls[1] = 0; verif_thrown = 0;
     aes_factory_split(&k); VERIF_REACH;'''),
+    dict(name='sc_load', props=P, **REPLAY5, enforce='sc_load', harness=r'''
+    size_t i1, i2, i3, i4, pn, d; time_t to, nw; int b1, b2, b3; char c0; __CPROVER_assume(pn <= BUF_CAP);
+    g_cookie_id = i1; g_sub_id2 = i2; g_cipher_id = i3; g_data_id = i4; g_cookie_empty = b1 != 0; g_cookie_c0 = c0; g_b64_ok = b2 != 0; g_dec_ok2 = b3 != 0; g_now2 = nw;
+    g_plain.n = pn; g_plain.p = malloc(pn); __CPROVER_assume(g_plain.p != NULL);
+    g_clear_calls = 0; g_b64_calls = 0; g_decr_calls = 0; g_substr_calls = 0; g_badarg = 0; g_tsub_calls = 0;
+    sc_load(&d, &to); VERIF_REACH;'''),
+    dict(name='sc_save', props=P, **REPLAY5, enforce='sc_save', harness=r'''
+    size_t d, o1, o2, o3; time_t to; int os; g_enc_out = o1; g_b64e_out = o2; g_cat_out = o3; verif_thrown = 0; g_enc_calls2 = 0; g_b64e_calls = 0; g_cat_calls2 = 0; g_set_calls = 0;
+    sc_save(d, to, os != 0); VERIF_REACH;'''),
+    dict(name='si_load', props=P, **REPLAY5, enforce='si_load', harness=r'''
+    struct sintf si; int b1, b2; size_t ar; g_sl_ok = b1 != 0; g_ld_throws = b2 != 0; g_sl_ar = ar; verif_thrown = 0;
+    g_sl_calls = 0; g_ld_calls = 0; g_sclear_calls = 0; g_dclear_calls = 0; g_dclear_after_ld = 0; g_cassign_calls = 0; g_cclear_calls = 0;
+    si_load(&si); VERIF_REACH;'''),
 ]
 
 UNIT = dict(
@@ -176,5 +286,5 @@ UNIT = dict(
              'sesscrypto: std::string cipher is (pointer,length+NUL); std::vector<char> temporaries are malloc of the exact size; plain = substr()/assign() are stubs recording the range',
              'sesscrypto: constant-time shape of hmac_cipher::equal = no data-dependent exit from the loop; timing of the machine code is not modelled'],
     not_covered={'C05': ['"the data returned are exactly those of some earlier save": follows from HMAC unforgeability (assumed) plus the proved facts that the MAC covers the whole message and is compared in full',
-                         'encrypt side (buffer arithmetic of aes_cipher::encrypt), key derivation in aes_factory, session_cookies::load/save, base64 layer (unit base64), confidentiality / equality hiding of the encrypting backend']},
+                         'encrypt side (buffer arithmetic of aes_cipher::encrypt), key derivation in aes_factory, base64 layer (unit base64), confidentiality / equality hiding of the encrypting backend']},
 )
